@@ -164,7 +164,33 @@ def o_oob(case):
     return 'oob-accepted:' + case['kind'], 'indexes %s accepted for M=%d' % (case['idx'], case['M'])
 
 
-ORACLES = {'demodulate': o_nearest, 'roundtrip': o_roundtrip, 'constellation': o_constellation,
+def o_history(case):
+    """use the modulator, change the phase offset (possibly several times), use it again:
+    round trip and nearest-point detection must refer to the CURRENT constellation"""
+    f = _f()
+    M = case['M']
+    m = f.PSK(M, case['phase'])
+    idx = np.array(case['idx'], dtype=int)
+    for ph in case['offsets']:
+        out = m.demodulate(m.modulate(idx))
+        if not np.array_equal(out, idx):
+            return 'roundtrip-after-setPhaseOffset', 'before offset %r' % ph
+        m.setPhaseOffset(ph)
+    z = np.array([complex(*p) for p in case['samples']])
+    sym = np.asarray(m.symbols)
+    got = np.atleast_1d(m.demodulate(sym[idx]))
+    # the table after setPhaseOffset is a relabelling (known C15 finding) but still M distinct points:
+    if not np.array_equal(got, idx):
+        return 'roundtrip-after-setPhaseOffset', 'demodulate(modulate(idx)) != idx after offsets %r' % (case['offsets'],)
+    got = np.atleast_1d(m.demodulate(z))
+    for k, zz in enumerate(z):
+        best, gap = brute_nearest(sym, zz)
+        if gap >= 1e-9 and int(got[k]) != best:
+            return 'not-nearest-after-setPhaseOffset', 'sample %r -> %d, nearest %d' % (zz, got[k], best)
+    return None
+
+
+ORACLES = {'history': o_history, 'demodulate': o_nearest, 'roundtrip': o_roundtrip, 'constellation': o_constellation,
            'constructor': o_reject, 'modulate.oob': o_oob}
 
 
@@ -283,6 +309,21 @@ def correspondence(ctx, accept_max, psk_max, qam_max, nsamp):
                     ctx.corr('demodulate', {'kind': kind, 'M': M, 'phase': phase, 'z': [z[k].real, z[k].imag]},
                              int(got.ravel()[k]), mo[k], key=('det', kind, M, region, k))
                     ctx.branch('detection:' + region)
+            if kind == 'PSK':
+                # same object, new phase offset: the model detects against the CURRENT table
+                m.setPhaseOffset(ctx.rng.uniform(-7, 7))
+                sym2 = np.asarray(m.symbols, dtype=complex)
+                z = gen_samples(ctx.rng, sym2, 8, 'near')
+                got = np.asarray(m.demodulate(z))
+                mo, mg = drv.ask(['demodq %s %s' % (pts_rat(sym2), pts_rat(z)),
+                                  'margin %s %s' % (pts_rat(sym2), pts_rat(z))])
+                mo = [int(t) for t in mo.split(',')]
+                mg = [float(Fraction(t)) for t in mg.split(',')]
+                for k in range(z.size):
+                    if mg[k] >= 1e-9:
+                        ctx.corr('demodulate.after.setPhaseOffset', {'M': M, 'z': [z[k].real, z[k].imag]},
+                                 int(got[k]), mo[k], key=('det-off', M, phase != 0, k))
+                        ctx.branch('detection:after-setPhaseOffset')
 
 
 def oracles(ctx, psk_max, qam_max, nsamp, reject_max):
@@ -305,6 +346,12 @@ def oracles(ctx, psk_max, qam_max, nsamp, reject_max):
                 run_oracle(ctx, 'demodulate', {'kind': kind, 'M': M, 'phase': phase,
                                                'samples': [[c.real, c.imag] for c in z]},
                            key=('near', kind, M, region))
+        if kind == 'PSK' and M <= 256:
+            offs = [ctx.rng.uniform(-7, 7) for _ in range(ctx.rng.randint(1, 3))]
+            idx = [ctx.rng.below(M) for _ in range(12)]
+            z = gen_samples(ctx.rng, m.symbols, 12, 'uniform')
+            run_oracle(ctx, 'history', {'M': M, 'phase': phase, 'offsets': offs, 'idx': idx,
+                                        'samples': [[c.real, c.imag] for c in z]}, key=('hist', M, phase != 0))
         if kind != 'BPSK':
             run_oracle(ctx, 'modulate.oob', {'kind': kind, 'M': M, 'idx': [0, M]}, key=('oob', kind, M))
             run_oracle(ctx, 'modulate.oob', {'kind': kind, 'M': M, 'idx': [M + 5]}, key=('oob2', kind, M))
@@ -326,7 +373,7 @@ def check(ctx):
     psk_max, qam_max = (1 << 10, 4 ** 5) if quick else (1 << 10, 4 ** 6)
     nsamp = 24 if quick else 200
     core.prove(ctx, MODULE, generated=['Conversion'], drivers=[DRIVER], scratch=ctx.scratch)
-    ctx.required_branches = ['detection:boundary', 'detection:near', 'detection:uniform', 'accept:true',
+    ctx.required_branches = ['detection:after-setPhaseOffset', 'detection:boundary', 'detection:near', 'detection:uniform', 'accept:true',
                              'accept:false', 'modulate:error:ValueError', 'modulate:ok']
     try:
         correspondence(ctx, accept_max, psk_max, qam_max, nsamp)
